@@ -6,6 +6,9 @@
 (*    satisfiable block obligations, interval = set formulation, jobs).     *)
 (*  - stateful config (Stateful = TRUE): pieces are written in every order  *)
 (*    and every sub-range is read back after every write.                   *)
+(*  - zero-content config (MCSpecZero): the same with every subset of the   *)
+(*    bytes having zero CONTENT; adds VerifyInv (a piece is present iff it  *)
+(*    was written or consists of zeros only) and the RLE forms with zeros.  *)
 EXTENDS Geometry
 CONSTANTS MaxFiles, MaxLen, MaxPL, BSS
 
@@ -24,6 +27,12 @@ MCSpecStatic == MCInitStatic /\ [][Grow]_vars
 \* stateful config: every accepted layout is an initial state; pieces are written in every order
 MCInit == \E R \in LayoutSpace : Accepted(Prep(R)) /\ InitWith(Prep(R))
 MCSpec == MCInit /\ [][Next]_vars
+
+\* zero-content config: every accepted layout x every set of zero-content bytes is an initial state
+MCInitZero == \E R \in LayoutSpace : /\ Accepted(Prep(R))
+                                     /\ \E Z \in SUBSET (1 .. Prep(R).total) : InitWith(Prep([files |-> R.files, pl |-> R.pl, unit |-> 1, zero |-> Z]))
+MCSpecZero == MCInitZero /\ [][Next]_vars
+ThmRLEz == Accepted(lay) => ThmRLE(lay)
 
 Thm1 == Accepted(lay) => ThmCoverOnce(lay)
 Thm2 == Accepted(lay) => ThmPieceLen(lay)
